@@ -1,7 +1,8 @@
 (* C07 - Saved files are valid KDBX4 that an independent reader decodes identically.
    Statements only.  Model: format/Kdbx4.v (container framing, parametric in the primitives),
    xml/Scalars.v (scalar codecs). *)
-From KP Require Import Bytes Outcome LE Version Kdbx4 Kdbx4Facts Scalars ScalarsProofs.
+From Coq Require Import Permutation.
+From KP Require Import Bytes Outcome LE Version Kdbx4 Kdbx4Facts Kdbx4Proofs Scalars ScalarsProofs.
 Local Open Scope N_scope.
 
 (* a saved file starts with the outer header in the published layout: signature and version, cipher
@@ -28,3 +29,42 @@ Theorem c07_file_structure : forall sha256 sha512 hmac256 kdf outer_enc compress
            ++ header_mac sha512 hmac256 (hmac_key_of sha512 (d_master_seed d) transformed) header
            ++ write_blocks sha512 hmac256 encrypted (hmac_key_of sha512 (d_master_seed d) transformed).
 Proof. exact dump4_payload_is_ciphertext. Qed.
+
+(* the framing round trip: for ALL primitives satisfying the two inverse laws and the two length
+   laws, all configurations, all orders of the KDF dictionary, all attachments and payloads,
+   reading what the writer wrote returns the configuration, the attachments, the inner stream key
+   and the XML payload that were written *)
+Theorem c07_frame_roundtrip :
+  forall (sha256 sha512 : bytes -> bytes) (hmac256 : bytes -> bytes -> bytes)
+         (kdf : kdfcfg -> bytes -> bytes -> Kdbx4.res bytes)
+         (outer_enc outer_dec : ocipher -> bytes -> bytes -> bytes -> Kdbx4.res bytes)
+         (compress decompress : compression -> bytes -> Kdbx4.res bytes),
+  (forall c key iv p ct, outer_enc c key iv p = Ok ct -> outer_dec c key iv ct = Ok p) ->
+  (forall z p c, compress z p = Ok c -> decompress z c = Ok p) ->
+  (forall m, length (sha256 m) = 32%nat) ->
+  (forall k m, length (hmac256 k m) = 32%nat) ->
+  forall cfg d vd els atts xml file minor,
+  c_version cfg = KDB4 minor -> minor < 2 ^ 16 ->
+  draws_ok cfg d = true ->
+  Permutation vd (vd_of_kdf (c_kdf cfg) (d_kdf_seed d)) ->
+  kdf_params_ok (c_kdf cfg) = true ->
+  atts_ok atts = true ->
+  dump4 sha256 sha512 hmac256 kdf outer_enc compress cfg d vd els atts xml = Ok file ->
+  N.of_nat (length file) < 2 ^ 32 ->
+  decrypt4 sha256 sha512 hmac256 kdf outer_dec decompress file els = Ok (cfg, atts, d_inner_key d, xml).
+Proof. exact frame_roundtrip_small_file. Qed.
+
+(* layer by layer: any dictionary, any block payload, any attachment list *)
+Theorem c07_vd_parse_dump : forall d, vd_ok d = true -> vd_parse (vd_dump d) = Ok d.
+Proof. exact vd_parse_dump. Qed.
+
+Theorem c07_read_write_blocks : forall (sha512 : bytes -> bytes) (hmac256 : bytes -> bytes -> bytes),
+  (forall k m, length (hmac256 k m) = 32%nat) ->
+  forall fuel data key, (2 <= fuel)%nat -> N.of_nat (length data) < 2 ^ 32 ->
+  read_blocks sha512 hmac256 fuel 0 (write_blocks sha512 hmac256 data key) key [] = Ok data.
+Proof. exact read_write_blocks. Qed.
+
+Theorem c07_parse_inner_header_dump : forall c key atts xml,
+  N.of_nat (length key) < 2 ^ 32 -> atts_ok atts = true ->
+  parse_inner_header (inner_header_dump c key atts ++ xml) = Ok (atts, c, key, xml).
+Proof. exact parse_inner_header_dump. Qed.
